@@ -165,8 +165,44 @@ def correspond(ctx, sess, steps, opname=None, vm=0):
 def monitor(ctx, sess, regs):
     """the verified checker wfb on every diagram the crate produced (operands of the theorems are [ok])"""
     for what, how in sess.anomalies[:5]:
-        ctx.failure(what, how)
+        if ctx.pid in ('C01', 'C02', 'C11', 'C13', 'C14', 'C17'):
+            ctx.failure(what, how)      # properties that speak about what evaluation returns / reports
+        else:
+            ctx.disagreement('evaluate() as a function of the marker, the environment and the SET of extras (assumed by the model of evaluation)', how, 'one answer', what)
     del sess.anomalies[:]
+    if not getattr(sess, 'parses_checked', False):
+        # once per session: the fixed boundary texts are read, and every text the session read goes through the extracted parser as well
+        # (what a text denotes never rests on the crate alone, whichever property the session serves)
+        sess.parses_checked = True
+        seen = set(st[1] for st in sess.steps if st[0] == 'parse')
+        for t in markers.BOUNDARY_TEXTS:
+            if t not in seen:
+                sess.parse(t)
+        keys_ = markers.Keys(sess.p)
+        markers.check_parses(ctx, sess, keys_, 100)
+        # ... and a sample of the session's markers is walked by hand (the extracted evaluation of the diagram, on environments at and next
+        # to its cut values: final, pre-, post- and dev-release versions) and compared with evaluate()
+        cands = [r for r in regs if not isinstance(sess.models.get(r), Exception) and sess.models.get(r) not in ('T', 'F', None)]
+        cmds_, meta_ = [], []
+        for r in (cands if len(cands) <= 40 else ctx.rng.sample(cands, 40)):
+            for env, ex in markers.grid_envs(ctx.rng, keys_, [sess.models[r]], 3):
+                try:
+                    em = markers.env_model(keys_, env, sess.p)
+                except trees.Unmodelled:
+                    em = None
+                if em is None:
+                    continue
+                got = sess.ask(['eval', str(r), markers.env_sexp(env), [S(x) for x in ex]])
+                if got[0] != 'ok':
+                    continue
+                cmds_.append(['eval', sess.models[r], em[0], em[1], [S(x) for x in ex]])
+                meta_.append((r, env, ex, got[1]))
+        for (r, env, ex, got), o in zip(meta_, fw.batch_parallel(build.DRIVER, cmds_) if cmds_ else []):
+            ctx.corr_cases += 1
+            if o != got:
+                # a broken tie between the model's evaluation (which this property's theorems speak about) and evaluate(): whether the property
+                # itself fails is for the property's own oracle to show (C20 states the walk = evaluate outright)
+                ctx.disagreement('m_eval (the walk over the diagram) ~ MarkerTree::evaluate', {'marker': markers.describe(sess, r), 'env': env, 'extras': ex}, dump(o), got)
     cmds, rs = [], []
     for r in regs:
         m = sess.models[r]
